@@ -1,6 +1,7 @@
 package smtp
 
 import (
+	"strings"
 	"errors"
 	"io"
 
@@ -99,10 +100,15 @@ var vrfMenu = []vrfLine{
 	{"FOOB bar", kOther, ""},
 	{"\x80\xff\x00 \x01", kOther, ""},
 	{"EHLO", kEhlo, ""},
+	// an over-long line: 4096 bytes of an unknown command followed, on the same line, by text that
+	// would be a command of its own if the line were split at the reader's buffer size
+	{vrfLongLine, kOther, ""},
 }
 
+var vrfLongLine = "XYZZ " + strings.Repeat("x", 4091) + "RSET"
+
 // the quick tier uses a sub-menu (indices into vrfMenu)
-var vrfQuickMenu = []int{0, 1, 3, 5, 7, 8, 10, 13, 15, 18, 20, 25}
+var vrfQuickMenu = []int{0, 1, 3, 5, 7, 8, 10, 13, 15, 18, 20, 25, 30}
 
 // ---- ghost (reference) automaton ----
 
@@ -338,6 +344,9 @@ func VerifC03Machine(pre int, k int, full int, cut int) {
 			}
 			return vrf.Step{Kind: vrf.StepEOF}
 		}
+		// normally every path is at the same step here; if the code under test reads one scripted
+		// line in several pieces, paths that are at different steps meet: keep them apart
+		step = vrf.Fork(step)
 		step++
 		last := step == k
 		if g.expectBody {
